@@ -8,7 +8,7 @@ use crate::report::{par_run, Report};
 use crate::rng::Rng;
 use serde_json::json;
 
-pub const RULE: &str = "All 22 indicators x periods {1,2,7,64,512} (+ sampled 1..=512) x stream shapes {strictly increasing, strictly decreasing, alternating, flat, random walk, uniform random, one NaN then non-increasing, +-inf then flat, finite values of magnitude 1e-300..1e300, a feed of recurring bad ticks (crossed bars, non-finite fields, both at once)} x scalar/bar feed: after a warm-up of n+2 inputs the thread-local live-heap counter of the harness's counting GlobalAlloc is read, N further inputs (10^5 quick - 1.1*10^6 for the period-7 random-walk runs - and 10^6 thorough) generated in place (no harness allocation in between) are fed, and it is read again: growth must be <= 256 + 64*sum(periods) bytes (allocation count in steady state reported). bincode::serialized_size is sampled at every step of the first 3n+10 inputs and at 64 checkpoints of the long run: always <= the same bound (constancy after the first input reported). A second phase repeats, on one instance per (indicator, period in {1,7,64,65,200,512}), R cycles of {feed n+5 inputs, reset} / {clone, drop} / {serialize, deserialize, swap}: live heap after the cycles must be within the same bound of live heap after the first cycle (a per-reset, per-clone or per-restore leak grows linearly). Non-trivial: every run (stream far longer than the window); distinct by construction (indicator, period, shape, feed).";
+pub const RULE: &str = "All 22 indicators (multipliers incl. MIN_POSITIVE, 5e-324, f64::MAX, NaN) x periods {1,2,7,64,512} (+ sampled 1..=512) x stream shapes {strictly increasing, strictly decreasing, alternating, flat, random walk, uniform random, one NaN then non-increasing, +-inf then flat, finite values of magnitude 1e-300..1e300, a feed of recurring bad ticks (crossed bars, non-finite fields, both at once)} x scalar/bar feed: after a warm-up of n+2 inputs the thread-local live-heap counter of the harness's counting GlobalAlloc is read, N further inputs (10^5 quick - 1.1*10^6 for the period-7 random-walk runs - and 10^6 thorough) generated in place (no harness allocation in between) are fed, and it is read again: growth must be <= 256 + 64*sum(periods) bytes (allocation count in steady state reported). bincode::serialized_size is sampled at every step of the first 3n+10 inputs and at 64 checkpoints of the long run: always <= the same bound (constancy after the first input reported). A second phase repeats, on one instance per (indicator, period in {1,7,64,65,200,512}), R cycles of {feed n+5 inputs, reset} / {clone, drop} / {serialize, deserialize, swap}: live heap after the cycles must be within the same bound of live heap after the first cycle (a per-reset, per-clone or per-restore leak grows linearly). Non-trivial: every run (stream far longer than the window); distinct by construction (indicator, period, shape, feed).";
 
 #[derive(Clone, Copy, Debug, PartialEq)]
 pub enum Shape {
@@ -314,7 +314,9 @@ pub fn run(ctx: &Ctx) -> Report {
         match kind {
             Kind::Macd | Kind::Ppo => p.p = [*n, *n + 3, (*n / 2).max(1)],
             Kind::Slow => p.p = [*n, 3, 0],
-            Kind::Bb | Kind::Kc | Kind::Ce => p.k = 2.0,
+            // "a bound determined by its parameters alone" is 256 + 64 * periods whatever the multiplier: also
+            // ones that print with hundreds of digits
+            Kind::Bb | Kind::Kc | Kind::Ce => p.k = [2.0, f64::MIN_POSITIVE, 0.5, 5e-324, -3.0, f64::MAX, 1e-300, f64::NAN][(*idx % 8) as usize],
             _ => {}
         }
         let st = if *n >= 64 && matches!(kind, Kind::Mad | Kind::Cci | Kind::Er) { steps / 4 } else if *n == 7 && *shape == Shape::Walk { steps.max(1_100_000) } else { steps };
